@@ -679,6 +679,9 @@ Section Queries.
     now rewrite (distinct_hash_inj chain b0 b Hd E1 Hin E2).
   Qed.
 
+  Lemma q_header_by_height cb i b : nth_error chain i = Some b -> get_header_by_height cb s (N.of_nat i) = Some (b_hdr b).
+  Proof. intros Hi. unfold get_header_by_height. rewrite (q_hash i b Hi). now apply (q_header cb i b). Qed.
+
   Lemma q_by_height cb ct i b : nth_error chain i = Some b -> get_block_by_height cb ct s (N.of_nat i) = BHOk b.
   Proof.
     intros Hi. unfold get_block_by_height; cbv zeta. rewrite (q_hash i b Hi).
@@ -696,6 +699,10 @@ Definition answers (s : store) (chain : list block) : Prop :=
     get_block cb ct s (bhash b) = Some b /\
     get_header_by_hash cb s (bhash b) = Some (b_hdr b) /\
     (forall t, In t (b_txs b) -> get_transaction ct s (t_hash t) = Some (t, N.of_nat i)).
+
+Lemma inv_header_by_height g chain s : inv g chain s -> chain_distinct chain ->
+  forall cb i b, nth_error chain i = Some b -> get_header_by_height cb s (N.of_nat i) = Some (b_hdr b).
+Proof. intros Hinv Hd cb i b Hi. eapply q_header_by_height; eassumption. Qed.
 
 Lemma inv_answers g chain s : inv g chain s -> chain_distinct chain -> answers s chain.
 Proof.
@@ -728,6 +735,24 @@ Proof.
   - now rewrite Ec.
   - unfold run_ledger. rewrite E0. rewrite Ec in Hinv. exists s. split; [exact E|].
     eapply inv_answers; [exact Hinv|exact Hd].
+Qed.
+
+Theorem header_by_height_agrees g ops :
+  history_ok g ops ->
+  exists s, run_ledger g ops = Some s /\
+    forall cb i b, nth_error (g :: committed 0 ops) i = Some b -> get_header_by_height cb s (N.of_nat i) = Some (b_hdr b).
+Proof.
+  intros [Hg Hd Hok].
+  pose proof (genesis_chain_heights g ops Hg) as Hh.
+  assert (Hwf : chain_wf ([g] ++ committed 0 ops)) by (split; assumption).
+  destruct (init_inv g Hg (chain_wf_prefix _ _ Hwf)) as (s0 & E0 & Hinv0).
+  assert (Ec : s_cur_height s0 = 0).
+  { pose proof (v_cur _ _ _ Hinv0) as C. cbn in C. lia. }
+  destruct (run_inv g ops s0 [g] Hinv0) as (s & E & Hinv).
+  - now rewrite Ec.
+  - now rewrite Ec.
+  - unfold run_ledger. rewrite E0. rewrite Ec in Hinv. exists s. split; [exact E|].
+    eapply inv_header_by_height; [exact Hinv|exact Hd].
 Qed.
 
 Lemma committed_app_reopen : forall ops cur, committed cur (ops ++ [OReopen]) = committed cur ops.
